@@ -1,7 +1,7 @@
 // replay for property=C02 harness=interpreter::verif_c02_gen::c02_seeded_pairs_8 module=verif_c02_gen crate=abasic-core src=src/interpreter.rs
 // failing check: "c02 arm pair *,/ paren-free [n0 * V1 / n2]: value/error differs from the reference fold"
 // native dev: panicked; release: not run (playback supports the dev profile only)
-// panicked at /tmp/verif-abasic-tosk7vro/abasic-core/verif_h/verif_c02_gen.rs:3839:9: | c02 arm pair *,/ paren-free [n0 * V1 / n2]: value/error differs from the reference fold
+// panicked at /tmp/verif-abasic-3mksk2sg/abasic-core/verif_h/verif_c02_gen.rs:3839:9: | c02 arm pair *,/ paren-free [n0 * V1 / n2]: value/error differs from the reference fold
 /// Test generated for harness `interpreter::verif_c02_gen::c02_seeded_pairs_8` 
 ///
 /// Check for `assertion`: ""c02 arm pair *,/ paren-free [n0 * V1 / n2]: value/error differs from the reference fold""
